@@ -41,6 +41,6 @@ MCInit == \E case \in VecCases \cup ToyCases \cup ProdCases : Init(case)
 Emit == pc' = "done" =>
           PrintT(ToJson([k |-> "rfc", id |-> cs.id, q |-> cs.q, qlen |-> cs.qlen, x |-> cs.x, h1 |-> cs.h1,
                          hlen |-> cs.hlen, defs |-> defs', cands |-> cands']))
-MCNext == Next /\ Emit
-MCSpec == MCInit /\ [][MCNext]_rvars
+\* Emit is an ACTION_CONSTRAINT (see the cfg), so that TLC's coverage still names the actions of RFC6979!Next
+MCSpec == MCInit /\ [][Next]_rvars
 =============================================================================
